@@ -41,6 +41,13 @@ Qed.
 Lemma finish_tr s : tr_step s (finish s).
 Proof. apply finish_tr'. reflexivity. Qed.
 
+Lemma raise_with_tr s0 s owner line v : str s = str s0 -> tr_step s0 (raise_with s owner line v).
+Proof.
+  intros Hs. unfold raise_with. destruct (scalls s).
+  - apply end_panic_tr. exact Hs.
+  - apply TS_same. simpl. exact Hs.
+Qed.
+
 Lemma native_in_next_tr s0 nk s k :
   str s = str s0 ->
   (forall s', (str s' = str s0 \/ exists e, str s' = e :: str s0 /\ benign e) -> tr_step s0 (k s')) ->
@@ -50,7 +57,7 @@ Proof.
   - apply Hk. right. exists (EBody n). simpl. rewrite Hs. split; [reflexivity|exact I].
   - rewrite Hs. apply TS_stop.
   - rewrite Hs. apply TS_fatal.
-  - destruct (sfn s); rewrite Hs; ts_fin.
+  - apply raise_with_tr. exact Hs.
 Qed.
 
 Lemma after_switch_tr s0 s call i :
@@ -62,6 +69,7 @@ Proof.
     intros s' [H|[e [H Hb]]].
     + apply TS_same. simpl. exact H.
     + eapply TS_emit; [|exact Hb]. simpl. exact H.
+  - rewrite Hs. ts_fin.
 Qed.
 
 Lemma step_next_tr s i : tr_step s (step_next s i).
@@ -87,11 +95,7 @@ Proof.
 Qed.
 
 Lemma raise_tr s0 s f pc v : str s = str s0 -> tr_step s0 (raise s f pc v).
-Proof.
-  intros Hs. unfold raise. destruct (scalls s).
-  - apply end_panic_tr. exact Hs.
-  - apply TS_same. simpl. exact Hs.
-Qed.
+Proof. intros Hs. unfold raise. apply raise_with_tr. exact Hs. Qed.
 
 Lemma do_recover_tr s0 s down : str s = str s0 -> tr_step s0 (do_recover s down).
 Proof.
@@ -287,11 +291,13 @@ Proof.
   intros H Hb. induction H; constructor; [|assumption]. eapply desc_weaken; eassumption.
 Qed.
 
-(* the chain of the running VM and the chains of the VMs suspended in a
-   callback: serial numbers decrease along every chain and are below the counter *)
-Definition chain_ok (s : state) : Prop :=
-  desc (map pser (schain s)) (sraised s) /\
-  Forall (fun sv => desc (map pser (vchain sv)) (sraised s)) (souter s).
+(* every PanicError the machine holds: the chain of the running VM and the
+   chains of the VMs suspended in a callback (the panics of a callback are
+   newer than those of its callers) *)
+Definition all_chains (s : state) : list prec := schain s ++ flat_map vchain (souter s).
+
+(* serial numbers decrease along the whole list and are below the counter *)
+Definition chain_ok (s : state) : Prop := desc (map pser (all_chains s)) (sraised s).
 
 (* a record without its aborted flag *)
 Definition pkey (p : prec) : N * bool * option N * N := (pmsg p, precovered p, ppos p, pser p).
@@ -339,12 +345,31 @@ Qed.
 Lemma chain_split_app c : fst (chain_split c) ++ snd (chain_split c) = c.
 Proof. destruct c; reflexivity. Qed.
 
-(* how one step changes the chain *)
+(* c1 is c without some of its first records, up to the aborted flags *)
+Definition derived (c c1 : list prec) : Prop := exists n, map pkey c1 = map pkey (skipn n c).
+
+Lemma derived_refl c : derived c c.
+Proof. exists 0%nat. reflexivity. Qed.
+
+Lemma derived_key c c1 : map pkey c1 = map pkey c -> derived c c1.
+Proof. intros H. exists 0%nat. exact H. Qed.
+
+Lemma derived_trim p0 r0 : derived (p0 :: r0) (drop_ab r0).
+Proof. destruct (drop_ab_skipn r0) as [n Hn]. exists (S n). simpl. rewrite Hn. reflexivity. Qed.
+
+(* at most one new record, with the next serial number *)
+Definition pushed (s : state) (newp : list prec) (r' : N) : Prop :=
+  (newp = [] /\ r' = sraised s) \/
+  (exists p, newp = [p] /\ pser p = sraised s /\ precovered p = false /\ r' = N.succ (sraised s)).
+
+(* how one step changes the chains *)
 Inductive ch_step (s : state) : sres -> Prop :=
-| CS_same s' : schain s' = schain s -> sraised s' = sraised s -> souter s' = souter s -> ch_step s (Next s')
-| CS_push s' p :
-    schain s' = p :: schain s -> pser p = sraised s -> precovered p = false ->
-    sraised s' = N.succ (sraised s) -> souter s' = souter s -> ch_step s (Next s')
+| CS_gen s' newp c1 popped :
+    (* records leave the head of the chain or change their aborted flag, at
+       most one is added; the chains of the suspended VMs that end are appended *)
+    souter s = popped ++ souter s' ->
+    schain s' = newp ++ c1 ++ flat_map vchain popped ->
+    derived (schain s) c1 -> pushed s newp (sraised s') -> ch_step s (Next s')
 | CS_flag s' p ps f down i1 i :
     schain s = p :: ps -> schain s' = mkprec (pmsg p) true (paborted p) (ppos p) (pser p) :: ps ->
     sraised s' = sraised s -> souter s' = souter s ->
@@ -352,35 +377,37 @@ Inductive ch_step (s : state) : sres -> Prop :=
     recover_start (scalls s) down = Some i1 -> recover_search (scalls s) i1 = Some i ->
     scalls s' = mark_recovered (scalls s) i ->
     ch_step s (Next s')
-| CS_trim s' n : schain s' = skipn n (schain s) -> sraised s' = sraised s -> souter s' = souter s -> ch_step s (Next s')
-| CS_mark s' :
-    (* the aborted flags of some records change, nothing else *)
-    map pkey (schain s') = map pkey (schain s) -> sraised s' = sraised s -> souter s' = souter s -> ch_step s (Next s')
 | CS_enter s' sv :
     (* a native function calls back: a new VM with an empty chain, the chain of the caller is kept *)
     schain s' = [] -> sraised s' = sraised s -> vchain sv = schain s -> souter s' = sv :: souter s ->
     ch_step s (Next s')
-| CS_resume s' sv rest :
-    (* the callback returned: the caller goes on with its own chain *)
-    souter s = sv :: rest -> schain s = [] -> schain s' = vchain sv -> sraised s' = sraised s -> souter s' = rest ->
-    ch_step s (Next s')
 | CS_fin o tr :
     (forall c, o = OPanic c ->
-       c = chain_view (schain s) \/
-       exists p, pser p = sraised s /\ precovered p = false /\ c = chain_view (p :: schain s)) ->
+       exists newp c1 r', c = chain_view (newp ++ c1 ++ flat_map vchain (souter s)) /\
+                          derived (schain s) c1 /\ pushed s newp r') ->
     ch_step s (Fin o tr).
 
-Ltac cs_same := apply CS_same; reflexivity.
+Lemma cs_same_gen s s' :
+  schain s' = schain s -> sraised s' = sraised s -> souter s' = souter s -> ch_step s (Next s').
+Proof.
+  intros Hc Hr Ho. apply CS_gen with (newp := []) (c1 := schain s) (popped := []).
+  - rewrite Ho. reflexivity.
+  - rewrite Hc. simpl. rewrite app_nil_r. reflexivity.
+  - apply derived_refl.
+  - left. auto.
+Qed.
+
+Ltac cs_same := apply cs_same_gen; reflexivity.
 Ltac cs_fin := apply CS_fin; intros ? ?; discriminate.
 
-Lemma end_panic_ch s0 s c :
-  (c = schain s0 \/ exists p, pser p = sraised s0 /\ precovered p = false /\ c = p :: schain s0) ->
-  ch_step s0 (end_panic s c).
+(* the end of runFunc with a pending chain: in the main VM Run returns it *)
+Lemma end_panic_ch s0 s newp c1 r' :
+  souter s = souter s0 -> derived (schain s0) c1 -> pushed s0 newp r' ->
+  ch_step s0 (end_panic s (newp ++ c1)).
 Proof.
-  intros Hc. unfold end_panic. destruct (souter s); [|cs_fin].
-  apply CS_fin. intros c' Ho. inversion Ho. destruct Hc as [->|[p [H1 [H2 ->]]]].
-  - left. reflexivity.
-  - right. exists p. auto.
+  intros Ho Hd Hp. unfold end_panic. destruct (souter s) eqn:Hos; [|cs_fin].
+  apply CS_fin. intros c' Hc. inversion Hc. exists newp, c1, r'.
+  rewrite <- Ho. simpl. rewrite app_nil_r. auto.
 Qed.
 
 Lemma finish_ch' s0 s :
@@ -388,33 +415,54 @@ Lemma finish_ch' s0 s :
 Proof.
   intros Hc Hr Ho. unfold finish. destruct (schain s) as [|p c] eqn:Hcs.
   - destruct (souter s) as [|sv rest] eqn:Hos; [cs_fin|].
-    eapply CS_resume with (sv := sv) (rest := rest); simpl; try reflexivity; congruence.
-  - apply end_panic_ch. left. congruence.
+    apply CS_gen with (newp := []) (c1 := []) (popped := [sv]).
+    + rewrite <- Ho. reflexivity.
+    + simpl. rewrite app_nil_r. reflexivity.
+    + exists 0%nat. rewrite <- Hc. reflexivity.
+    + left. auto.
+  - change (p :: c) with ([] ++ (p :: c)). apply end_panic_ch with (r' := sraised s0).
+    + exact Ho.
+    + rewrite <- Hc. apply derived_refl.
+    + left. auto.
 Qed.
 
 Lemma finish_ch s : ch_step s (finish s).
 Proof. apply finish_ch'; reflexivity. Qed.
 
-Lemma after_switch_ch s0 s call i :
-  schain s = schain s0 -> sraised s = sraised s0 -> souter s = souter s0 -> ch_step s0 (after_switch s call i).
+Lemma raise_with_ch s0 s owner line v :
+  derived (schain s0) (schain s) -> sraised s = sraised s0 -> souter s = souter s0 ->
+  ch_step s0 (raise_with s owner line v).
 Proof.
-  intros Hc Hr Ho. unfold after_switch. destruct (fcl call) as [f|nk].
-  - apply CS_same; simpl; assumption.
-  - destruct nk; simpl; try cs_fin.
-    + apply CS_same; simpl; assumption.
-    + destruct (sfn s); cs_fin.
+  intros Hd Hr Ho. unfold raise_with.
+  assert (Hp : pushed s0 [mkprec v false false line (sraised s)] (N.succ (sraised s0))).
+  { right. eexists. split; [reflexivity|]. simpl. rewrite Hr. auto. }
+  destruct (scalls s).
+  - change (mkprec v false false line (sraised s) :: schain s)
+      with ([mkprec v false false line (sraised s)] ++ schain s).
+    eapply end_panic_ch; eassumption.
+  - eapply CS_gen with (popped := []) (newp := [mkprec v false false line (sraised s)]) (c1 := schain s);
+      [rewrite <- Ho; reflexivity| |exact Hd|].
+    + simpl. rewrite app_nil_r. reflexivity.
+    + cbn [sraised]. replace (N.succ (sraised s)) with (N.succ (sraised s0)) by (rewrite Hr; reflexivity). exact Hp.
 Qed.
 
-(* after a step of nextCall that changed the chain: the deferred call it goes on with *)
-Lemma after_switch_any_ch s0 s call i :
-  (forall s', schain s' = schain s -> sraised s' = sraised s -> souter s' = souter s -> ch_step s0 (Next s')) ->
+(* the part of nextCall after its switch, when the chain has been trimmed or marked before *)
+Lemma after_switch_ch s0 s call i :
+  derived (schain s0) (schain s) -> sraised s = sraised s0 -> souter s = souter s0 ->
   ch_step s0 (after_switch s call i).
 Proof.
-  intros H. unfold after_switch. destruct (fcl call) as [f|nk].
-  - apply H; reflexivity.
-  - destruct nk; simpl; try cs_fin.
-    + apply H; reflexivity.
-    + destruct (sfn s); cs_fin.
+  intros Hd Hr Ho.
+  assert (Hn : forall s', schain s' = schain s -> sraised s' = sraised s -> souter s' = souter s ->
+                          ch_step s0 (Next s')).
+  { intros s' Hc' Hr' Ho'. apply CS_gen with (newp := []) (c1 := schain s) (popped := []).
+    - rewrite Ho', Ho. reflexivity.
+    - rewrite Hc'. simpl. rewrite app_nil_r. reflexivity.
+    - exact Hd.
+    - left. split; [reflexivity|congruence]. }
+  unfold after_switch. destruct (fcl call) as [f|nk|]; [apply Hn; reflexivity| |cs_fin].
+  destruct nk; simpl; try cs_fin.
+  - apply Hn; reflexivity.
+  - apply raise_with_ch; assumption.
 Qed.
 
 Lemma step_next_ch s i : ch_step s (step_next s i).
@@ -422,36 +470,32 @@ Proof.
   unfold step_next.
   destruct (nth_error (scalls s) i) as [call|]; [|cs_fin].
   destruct (fstat call) eqn:Hst.
-  - apply after_switch_ch; reflexivity.
+  - apply after_switch_ch; [apply derived_refl|reflexivity|reflexivity].
   - cs_same.
   - cbv zeta. change (status_eqb Returned Recovered) with false. cbv iota.
     destruct (prev_deferred (scalls s) i) as [[j prev]|].
-    + apply after_switch_ch; reflexivity.
+    + apply after_switch_ch; [apply derived_refl|reflexivity|reflexivity].
     + simpl. cs_same.
-  - destruct (sfn s); [|cs_fin]. apply after_switch_ch; reflexivity.
+  - destruct (sfn s); [|cs_fin]. apply after_switch_ch; [apply derived_refl|reflexivity|reflexivity].
   - destruct (scan_panicked (scalls s) i _ _) as [[[[j d]|] chain']|] eqn:Hsc; [| |cs_fin].
     + apply scan_panicked_key in Hsc. rewrite chain_split_app in Hsc.
       destruct (nth_error (scalls s) (S j)); [|cs_fin].
-      apply after_switch_any_ch. intros s' Hc Hr Ho. apply CS_mark; [rewrite Hc; exact Hsc|exact Hr|exact Ho].
+      apply after_switch_ch; [apply derived_key; exact Hsc|reflexivity|reflexivity].
     + apply scan_panicked_key in Hsc. rewrite chain_split_app in Hsc.
-      apply CS_mark; [exact Hsc|reflexivity|reflexivity].
+      apply CS_gen with (newp := []) (c1 := chain') (popped := []); [reflexivity| |apply derived_key; exact Hsc|left; auto].
+      simpl. rewrite app_nil_r. reflexivity.
   - cbv zeta. change (status_eqb Recovered Recovered) with true. cbv iota.
     unfold trim. destruct (schain s) as [|p0 r0] eqn:Hch; [cs_fin|].
-    destruct (drop_ab_skipn r0) as [n Hn].
     match goal with |- context [prev_deferred ?c i] => destruct (prev_deferred c i) as [[j prev]|] end.
-    + apply after_switch_any_ch. intros s' Hc Hr Ho.
-      apply CS_trim with (n := S n); [rewrite Hc, Hch; exact Hn|exact Hr|exact Ho].
-    + apply CS_trim with (n := S n); [rewrite Hch; exact Hn|reflexivity|reflexivity].
+    + apply after_switch_ch; [simpl; rewrite Hch; apply derived_trim|reflexivity|reflexivity].
+    + apply CS_gen with (newp := []) (c1 := drop_ab r0) (popped := []); [reflexivity| |rewrite Hch; apply derived_trim|left; auto].
+      simpl. rewrite app_nil_r. reflexivity.
 Qed.
 
 Lemma raise_ch s0 s f pc v :
   schain s = schain s0 -> sraised s = sraised s0 -> souter s = souter s0 -> ch_step s0 (raise s f pc v).
 Proof.
-  intros Hc Hr Ho. unfold raise. destruct (scalls s).
-  - apply end_panic_ch. right.
-    eexists (mkprec v false false _ (sraised s)). simpl. split; [exact Hr|]. split; [reflexivity|].
-    rewrite Hc. reflexivity.
-  - eapply CS_push; simpl; [rewrite Hc; reflexivity|exact Hr|reflexivity|rewrite Hr; reflexivity|exact Ho].
+  intros Hc Hr Ho. unfold raise. apply raise_with_ch; [rewrite Hc; apply derived_refl|exact Hr|exact Ho].
 Qed.
 
 Lemma step_exec_ch s : smode s = MExec -> ch_step s (step_exec s).
@@ -491,19 +535,35 @@ Proof.
   - apply step_next_ch.
 Qed.
 
+Lemma desc_app_skipn n : forall l rest b, desc (l ++ rest) b -> desc (skipn n l ++ rest) b.
+Proof.
+  induction n; intros l rest b H; [exact H|]. destruct l as [|x r]; [exact H|]. simpl in *.
+  destruct H as [Hx Hr]. apply IHn. eapply desc_weaken; [exact Hr|lia].
+Qed.
+
+(* the chains after a step of the general kind are ordered *)
+Lemma gen_desc s newp c1 r' :
+  chain_ok s -> derived (schain s) c1 -> pushed s newp r' ->
+  desc (map pser (newp ++ c1 ++ flat_map vchain (souter s))) r'.
+Proof.
+  unfold chain_ok, all_chains. intros Hok [n Hd] Hp.
+  assert (H1 : desc (map pser (c1 ++ flat_map vchain (souter s))) (sraised s)).
+  { rewrite map_app, (pkey_ser _ _ Hd), <- map_app. rewrite map_app, map_skipn'.
+    apply desc_app_skipn. rewrite <- map_app. exact Hok. }
+  destruct Hp as [[-> ->]|[p [-> [Hs [_ ->]]]]]; [exact H1|].
+  simpl. rewrite Hs. split; [lia|exact H1].
+Qed.
+
 Lemma step_chain_ok s s' : step s = Next s' -> chain_ok s -> chain_ok s'.
 Proof.
-  intros Hs [Hok Hout]. assert (H := step_ch s). rewrite Hs in H. unfold chain_ok in *.
-  inversion H as [s1 Hc Hr Ho | s1 p Hc Hp Hrec Hr Ho | s1 p ps f down i1 i Hc0 Hc Hr Ho Hm Hf Hfe Hs1 Hs2 Hcalls
-                 | s1 n Hc Hr Ho | s1 Hc Hr Ho | s1 sv Hc Hr Hv Ho | s1 sv rest Ho0 Hc0 Hc Hr Ho | o tr Hfin].
-  - rewrite Hc, Hr, Ho. split; assumption.
-  - rewrite Hc, Hr, Ho. simpl. rewrite Hp. split; [split; [lia|exact Hok]|].
-    eapply Forall_desc_weaken; [exact Hout|lia].
-  - rewrite Hc, Hr, Ho. rewrite Hc0 in Hok. split; assumption.
-  - rewrite Hc, Hr, Ho. split; [|assumption]. rewrite map_skipn'. apply desc_skipn. exact Hok.
-  - rewrite Hr, Ho. split; [|assumption]. rewrite (pkey_ser _ _ Hc). exact Hok.
-  - rewrite Hc, Hr, Ho. split; [exact I|]. constructor; [rewrite Hv; exact Hok|exact Hout].
-  - rewrite Hc, Hr, Ho. rewrite Ho0 in Hout. inversion Hout as [|x l Hx Hl]. split; assumption.
+  intros Hs Hok. assert (H := step_ch s). rewrite Hs in H.
+  inversion H as [s1 newp c1 popped Ho Hc Hd Hp | s1 p ps f down i1 i Hc0 Hc Hr Ho Hm Hf Hfe Hs1 Hs2 Hcalls
+                 | s1 sv Hc Hr Hv Ho | o tr Hfin]; subst.
+  - assert (G := gen_desc s newp c1 (sraised s') Hok Hd Hp).
+    unfold chain_ok, all_chains. rewrite Hc. rewrite Ho, flat_map_app in G.
+    repeat rewrite <- app_assoc. exact G.
+  - unfold chain_ok, all_chains in *. rewrite Hc, Hr, Ho. rewrite Hc0 in Hok. exact Hok.
+  - unfold chain_ok, all_chains in *. rewrite Hc, Hr, Ho. simpl. rewrite Hv. exact Hok.
 Qed.
 
 Inductive reach : state -> state -> Prop :=
@@ -514,7 +574,7 @@ Lemma reach_chain_ok s s' : reach s s' -> chain_ok s -> chain_ok s'.
 Proof. induction 1; intros Hok; [exact Hok|]. apply IHreach. eapply step_chain_ok; eassumption. Qed.
 
 Lemma init_chain_ok f : chain_ok (init f).
-Proof. split; [exact I|constructor]. Qed.
+Proof. exact I. Qed.
 
 (* the chain Run returns is the view of a chain whose serial numbers of
    raising strictly decrease along the next links *)
@@ -527,11 +587,8 @@ Proof.
   destruct (step s) as [s'|o tr'] eqn:Hs.
   - eapply IHn; [|exact Hr]. eapply step_chain_ok; eassumption.
   - inversion Hr; subst. assert (H := step_ch s). rewrite Hs in H. inversion H; subst.
-    destruct Hok as [Hok _].
-    destruct (H1 c eq_refl) as [->|[p [Hp [_ ->]]]].
-    + exists (schain s), (sraised s). split; [reflexivity|exact Hok].
-    + exists (p :: schain s), (N.succ (sraised s)). split; [reflexivity|].
-      simpl. rewrite Hp. split; [lia|exact Hok].
+    destruct (H1 c eq_refl) as [newp [c1 [r' [-> [Hd Hp]]]]].
+    eexists _, r'. split; [reflexivity|]. eapply gen_desc; eassumption.
 Qed.
 
 Close Scope N_scope.
@@ -554,9 +611,8 @@ Proof.
   - inversion H; subst. split; [lia|]. split; [exists fr; auto|]. intros j Hj. lia.
 Qed.
 
-(* every PanicError the machine holds: the chain of the running VM and the
-   chains of the VMs suspended in a callback *)
-Definition all_chains (s : state) : list prec := schain s ++ flat_map vchain (souter s).
+Lemma in_skipn {A} (x : A) n : forall l, In x (skipn n l) -> In x l.
+Proof. induction n; intros l H; [exact H|]. destruct l; [exact H|]. right. apply IHn. exact H. Qed.
 
 (* a recovered flag that appears in a step was set by OpRecover on the head
    of the chain, and the nearest non-deferred frame was a panicked one *)
@@ -573,27 +629,23 @@ Proof.
   assert (Hold : In p' (schain s ++ flat_map vchain (souter s)) ->
                  exists p, In p (schain s ++ flat_map vchain (souter s)) /\ pser p = pser p' /\ precovered p = true)
     by (intros Hi; exists p'; auto).
-  inversion H as [s1 Hc Hr Ho | s1 p Hc Hp Hprec Hr Ho | s1 p ps f down i1 i Hc0 Hc Hr Ho Hm Hf Hfe Hs1 Hs2 Hcalls
-                 | s1 n Hc Hr Ho | s1 Hc Hr Ho | s1 sv Hc Hr Hv Ho | s1 sv rest Ho0 Hc0 Hc Hr Ho | o tr Hfin].
-  - left. apply Hold. rewrite Hc, Ho in Hin. exact Hin.
-  - rewrite Hc, Ho in Hin. destruct Hin as [->|Hin].
-    + rewrite Hprec in Hrec. discriminate.
-    + left. apply Hold. exact Hin.
+  inversion H as [s1 newp c1 popped Ho Hc [n Hd] Hp | s1 p ps f down i1 i Hc0 Hc Hr Ho Hm Hf Hfe Hs1 Hs2 Hcalls
+                 | s1 sv Hc Hr Hv Ho | o tr Hfin]; subst.
+  - left. rewrite Hc in Hin. rewrite Ho, flat_map_app.
+    repeat rewrite <- app_assoc in Hin.
+    apply in_app_or in Hin. destruct Hin as [Hin|Hin].
+    + exfalso. destruct Hp as [[-> _]|[p [-> [_ [Hf _]]]]]; [contradiction|].
+      destruct Hin as [<-|[]]. rewrite Hf in Hrec. discriminate.
+    + apply in_app_or in Hin. destruct Hin as [Hin|Hin].
+      * assert (Hk : In (pkey p') (map pkey (skipn n (schain s)))) by (rewrite <- Hd; apply in_map; exact Hin).
+        apply in_map_iff in Hk. destruct Hk as [p [Hpk Hpin]]. exists p.
+        split; [apply in_or_app; left; eapply in_skipn; exact Hpin|].
+        unfold pkey in Hpk. inversion Hpk. split; [reflexivity|]. congruence.
+      * exists p'. split; [apply in_or_app; right; exact Hin|auto].
   - rewrite Hc, Ho in Hin. destruct Hin as [<-|Hin].
     + right. exists f, down, i1, i, ps. repeat split; assumption.
     + left. apply Hold. rewrite Hc0. right. exact Hin.
-  - left. apply Hold. rewrite Hc, Ho in Hin. apply in_app_or in Hin. apply in_or_app.
-    destruct Hin as [Hin|Hin]; [left|right; exact Hin].
-    clear - Hin. revert Hin. generalize (schain s). induction n; intros l Hin; [exact Hin|].
-    destruct l; [exact Hin|]. right. apply IHn. exact Hin.
-  - (* marks: the same record up to its aborted flag *)
-    left. rewrite Ho in Hin. apply in_app_or in Hin. destruct Hin as [Hin|Hin].
-    + assert (Hk : In (pkey p') (map pkey (schain s))) by (rewrite <- Hc; apply in_map; exact Hin).
-      apply in_map_iff in Hk. destruct Hk as [p [Hp Hpin]]. exists p. split; [apply in_or_app; left; exact Hpin|].
-      unfold pkey in Hp. inversion Hp. split; [reflexivity|]. congruence.
-    + exists p'. split; [apply in_or_app; right; exact Hin|auto].
   - left. apply Hold. rewrite Hc, Ho in Hin. simpl in Hin. rewrite Hv in Hin. exact Hin.
-  - left. apply Hold. rewrite Hc, Ho in Hin. rewrite Ho0, Hc0. simpl. exact Hin.
 Qed.
 
 (* ------------------------------------------------------------------ *)
@@ -625,7 +677,7 @@ Proof.
         schain s' = mkprec v false false (debug_line f (spc s)) (sraised s) :: schain s) \/
      (exists tr, raise s1 f (spc s) v = Fin (OPanic ((v, false, debug_line f (spc s)) :: chain_view (schain s))) tr) \/
      (exists tr, souter s <> [] /\ raise s1 f (spc s) v = Fin (OCbPanic ((v, false) :: cb_view (schain s))) tr)).
-  { intros s1 Hc Hch Hra Hou. unfold raise, end_panic. rewrite Hc, Hch, Hra, Hou. destruct (scalls s).
+  { intros s1 Hc Hch Hra Hou. unfold raise, raise_with, end_panic. rewrite Hc, Hch, Hra, Hou. destruct (scalls s).
     - destruct (souter s) eqn:Ho.
       + right. left. eexists. reflexivity.
       + right. right. eexists. split; [discriminate|reflexivity].
